@@ -69,12 +69,15 @@ structure SpecSt where
   stk : List Str := []
   rev : List Event := []
 
+def notBlank (c : Char) : Bool := c != ' '
+
 def specStep (st : SpecSt) : Op → SpecSt
   | .start n as => ⟨n :: st.stk, .start n (sortAttrs as) :: st.rev⟩
   | .stop n => ⟨st.stk.tail, .stop n :: st.rev⟩
   | .chars s => ⟨st.stk, (s.map Event.chr).reverse ++ st.rev⟩
   | .literal s => ⟨st.stk, (s.map Event.chr).reverse ++ st.rev⟩
   | .comment s => ⟨st.stk, .comment (commentText s) :: st.rev⟩
+  | .pi s => ⟨st.stk, .pi (s.takeWhile notBlank) [] :: st.rev⟩    -- the target; nothing is claimed about PI data
   | _ => st
 
 /-- `__exit__`: whatever is open is closed, innermost first -/
@@ -106,6 +109,7 @@ inductive PadRev : List Bool → List Event → List Event → Prop
       PadRev m (.stop n :: s) (.stop n :: (ws ++ p))
   | chr {b m s p} (c : Char) : PadRev (b :: m) s p → PadRev (true :: m) (.chr c :: s) (.chr c :: p)
   | comment {m s p} (t : Str) : PadRev m s p → PadRev m (.comment t :: s) (.comment t :: p)
+  | pi {m s p} (t d d' : Str) : PadRev m s p → PadRev m (.pi t d :: s) (.pi t d' :: p)
 
 theorem PadRev.chrs {b : Bool} {m : List Bool} {s p : List Event} (h : PadRev (b :: m) s p) (cs : Str) :
     ∃ b', PadRev (b' :: m) ((cs.map Event.chr).reverse ++ s) ((cs.map Event.chr).reverse ++ p) := by
@@ -300,13 +304,13 @@ theorem simE_stop {w w' : WState} {p : PState} {st : SpecSt} {name chunk : Str} 
             exact PadRev.stop name wsE hp hws
           · intro hcc; simp at hcc
 
-/-- character data written after `_closeElemIfOpen()`, followed by `_flipIndent(False)` -/
+/-- something written after `_closeElemIfOpen()` inside an element, followed by `_flipIndent(False)` -/
 theorem simE_text {w w2 : WState} {p : PState} {st : SpecSt} (h : InvE w p st)
-    (hf : w.closeIfOpen.1.flipIndent false = .ok w2) (txt cs : Str)
-    (hrun : ∀ a stk rd evs, runM ⟨.content, a :: stk, rd, evs⟩ txt = some ⟨.content, a :: stk, rd, (cs.map Event.chr).reverse ++ evs⟩)
+    (hf : w.closeIfOpen.1.flipIndent false = .ok w2) (txt : Str) (ne sne : List Event)
+    (hrun : ∀ a stk rd evs, runM ⟨.content, a :: stk, rd, evs⟩ txt = some ⟨.content, a :: stk, rd, ne ++ evs⟩)
+    (hpad : ∀ (b : Bool) (m : List Bool) (s p : List Event), PadRev (b :: m) s p → ∃ b', PadRev (b' :: m) (sne ++ s) (ne ++ p))
     (i2 : ∀ p', runM p (w.closeIfOpen.2 ++ txt) = some p' → Inv w2 p') :
-    ∃ p', runM p (w.closeIfOpen.2 ++ txt) = some p' ∧
-      InvE w2 p' ⟨st.stk, (cs.map Event.chr).reverse ++ st.rev⟩ := by
+    ∃ p', runM p (w.closeIfOpen.2 ++ txt) = some p' ∧ InvE w2 p' ⟨st.stk, sne ++ st.rev⟩ := by
   obtain ⟨evs1, m, r1, hm, hp⟩ := simE_close h
   obtain ⟨c1, c2, c3⟩ := closeIfOpen_fields w
   obtain ⟨f1, f2, f3, f4⟩ := flip_ok hf
@@ -329,14 +333,24 @@ theorem simE_text {w w2 : WState} {p : PState} {st : SpecSt} (h : InvE w p st)
       | cons a stk =>
         rw [hstk] at r1
         have r2 := hrun a stk p.rootDone evs1
-        have hrun' : runM p (w.closeIfOpen.2 ++ txt) = some ⟨.content, a :: stk, p.rootDone, (cs.map Event.chr).reverse ++ evs1⟩ := by
+        have hrun' : runM p (w.closeIfOpen.2 ++ txt) = some ⟨.content, a :: stk, p.rootDone, ne ++ evs1⟩ := by
           rw [runM_append_of r1]; exact r2
-        obtain ⟨b', hb'⟩ := hp.chrs cs
+        obtain ⟨b', hb'⟩ := hpad b m0 _ _ hp
         refine ⟨_, hrun', ⟨i2 _ hrun', ?_, ?_, ?_⟩⟩
         · simp [h.stk, c1]
         · intro _
           exact ⟨b' :: m0, FlagsRel.cons (fun _ => rfl) htl, hb'⟩
         · intro hc; simp [c3] at hc
+
+theorem takeWhile_target (t d : Str) (ht : ∀ c ∈ t, c ≠ ' ') :
+    t.takeWhile notBlank = t ∧ (t ++ ' ' :: d).takeWhile notBlank = t := by
+  induction t with
+  | nil => exact ⟨rfl, by simp [notBlank]⟩
+  | cons c r ih =>
+    have hc : notBlank c = true := by simp [notBlank, ht c (by simp)]
+    obtain ⟨a, b⟩ := ih (fun x hx => ht x (by simp [hx]))
+    exact ⟨by simp only [List.takeWhile_cons, hc, if_true, a],
+           by simp only [List.cons_append, List.takeWhile_cons, hc, if_true, b]⟩
 
 theorem simE_step {w w' : WState} {p : PState} {st : SpecSt} {op : Op} {chunk : Str} (h : InvE w p st)
     (hs : stepW w op = .ok (w', chunk)) (hok : OpOk op)
@@ -359,8 +373,8 @@ theorem simE_step {w w' : WState} {p : PState} {st : SpecSt} {op : Op} {chunk : 
     | error e => rw [hf] at hs'; cases hs'
     | ok w2 =>
       rw [hf] at hs'; cases hs'
-      exact simE_text h hf (encodeL s) s (fun a stk rd evs => run_encodeL_content s hok a stk rd evs)
-        (fun p' hp' => by rw [r''] at hp'; cases hp'; exact i'')
+      exact simE_text h hf (encodeL s) _ _ (fun a stk rd evs => run_encodeL_content s hok a stk rd evs)
+        (fun _ _ _ _ hp => hp.chrs s) (fun p' hp' => by rw [r''] at hp'; cases hp'; exact i'')
   | literal s =>
     have hs' : (match w.closeIfOpen.1.flipIndent false with
         | .error e => .error e
@@ -369,8 +383,8 @@ theorem simE_step {w w' : WState} {p : PState} {st : SpecSt} {op : Op} {chunk : 
     | error e => rw [hf] at hs'; cases hs'
     | ok w2 =>
       rw [hf] at hs'; cases hs'
-      exact simE_text h hf s s (fun a stk rd evs => run_plain s hok a stk rd evs)
-        (fun p' hp' => by rw [r''] at hp'; cases hp'; exact i'')
+      exact simE_text h hf s _ _ (fun a stk rd evs => run_plain s hok a stk rd evs)
+        (fun _ _ _ _ hp => hp.chrs s) (fun p' hp' => by rw [r''] at hp'; cases hp'; exact i'')
   | comment s =>
     have hs' : Except.ok (w.closeIfOpen.1, w.closeIfOpen.2 ++ ['<', '!', '-', '-'] ++ commentText s ++ ['-', '-', '>']) = Except.ok (w', chunk) := hs
     cases hs'
@@ -408,7 +422,26 @@ theorem simE_step {w w' : WState} {p : PState} {st : SpecSt} {op : Op} {chunk : 
         -- an open start tag has its flag `true` on top: xmlSpacePreserve sets it to false; the pending tag is unaffected
         rw [hr] at e6; cases e6
         exact ⟨nm, as, s', ws, p0, m', false, r, rest', f1, f2, by simpa [specStep] using e1, e2, e3, e4, e5, rfl, e7⟩
-  | pi s => exact absurd hok (by simp [OpOk])
+  | pi s =>
+    have hs' : (match w.closeIfOpen.1.flipIndent false with
+        | .error e => .error e
+        | .ok w2 => .ok (w2, w.closeIfOpen.2 ++ ['<', '?'] ++ encodeL s ++ ['?', '>'])) = Except.ok (w', chunk) := hs
+    cases hf : w.closeIfOpen.1.flipIndent false with
+    | error e => rw [hf] at hs'; cases hs'
+    | ok w2 =>
+      rw [hf] at hs'; cases hs'
+      obtain ⟨t, d', hsp, hst, hrun⟩ := run_pi s hok
+      have htk : s.takeWhile notBlank = t := by
+        rcases hst with e | ⟨d, e⟩
+        · rw [e]; exact (takeWhile_target t [] hsp).1
+        · rw [e]; exact (takeWhile_target t d hsp).2
+      have r''' : runM p (w.closeIfOpen.2 ++ (['<', '?'] ++ encodeL s ++ ['?', '>'])) = some p'' := by
+        simpa [List.append_assoc] using r''
+      obtain ⟨p', rp, ep⟩ := simE_text h hf (['<', '?'] ++ encodeL s ++ ['?', '>']) [.pi t d'] [.pi t []]
+        (fun a stk rd evs => by simpa using hrun (a :: stk) rd evs)
+        (fun b m s p hp => ⟨b, by simpa using PadRev.pi t [] d' hp⟩)
+        (fun p' hp' => by rw [r'''] at hp'; cases hp'; exact i'')
+      exact ⟨p', by simpa [List.append_assoc] using rp, by simpa [specStep, htk] using ep⟩
   | charsBr s => exact absurd hok (by simp [OpOk])
 
 theorem simE_run (ops : List Op) : ∀ {w w' : WState} {p : PState} {st : SpecSt} {chunk : Str}, InvE w p st →
